@@ -352,7 +352,9 @@ void SPxMainSM<R>::RowSingletonPS::execute(VectorBase<R>& x, VectorBase<R>& y, V
       break;
 
    case SPxSolverBase<R>::ON_LOWER:
-      if(EQrel(m_oldLo, x[m_j], this->feastol())) // xj may stay on lower
+      if(EQrel(m_oldLo, x[m_j], this->feastol())
+            && !(r[m_j] <= -this->feastol() && (EQrel(m_rhs / aij, x[m_j], this->feastol())
+                  || EQrel(m_lhs / aij, x[m_j], this->feastol())))) // xj may stay on lower
       {
          rStatus[m_i] = SPxSolverBase<R>::BASIC;
          y[m_i] = m_row_obj;
@@ -373,7 +375,9 @@ void SPxMainSM<R>::RowSingletonPS::execute(VectorBase<R>& x, VectorBase<R>& y, V
       break;
 
    case SPxSolverBase<R>::ON_UPPER:
-      if(EQrel(m_oldUp, x[m_j], this->feastol())) // xj may stay on upper
+      if(EQrel(m_oldUp, x[m_j], this->feastol())
+            && !(r[m_j] >= this->feastol() && (EQrel(m_rhs / aij, x[m_j], this->feastol())
+                  || EQrel(m_lhs / aij, x[m_j], this->feastol())))) // xj may stay on upper
       {
          rStatus[m_i] = SPxSolverBase<R>::BASIC;
          y[m_i] = m_row_obj;
